@@ -34,16 +34,16 @@ for n, N in (("p0", 5), ("p1", 6), ("p3", 8)):
       obligation="L1/N4/T1a: header step of decode_chunk: accepted iff flag=0 and BE length <= limit; OUT_OF_RANGE / INTERNAL otherwise; "
                  "no buffer growth on refusal",
       functions=DEC_FUNCS, bounds="all %d-byte buffers (5 prefix + %d payload), all Option<usize> limits, 3 directions" % (N, N - 5))
-H("dec_hdr_p7", ["C06", "C05", "C07", "C01"], "core", *DEC, tier="thorough", cap_s=1200,
+H("dec_hdr_p7", ["C06", "C05", "C07", "C01"], "core", *DEC, tier="quick", cap_s=600,
   obligation="L1/N4/T1a header step, longer payload", functions=DEC_FUNCS, bounds="all 12-byte buffers, all limits")
 for n in ("0", "2", "4"):
     H("dec_short_" + n, ["C01", "C07"], "core", *DEC,
       obligation="D1: fewer than 5 buffered bytes: no message, no error, nothing consumed",
       functions=DEC_FUNCS, bounds="all %s-byte buffers" % n)
-for n, t in (("0", "quick"), ("3", "quick"), ("5", "thorough")):
+for n, t in (("0", "quick"), ("3", "quick"), ("5", "quick"), ("8", "quick"), ("16", "thorough")):
     H("dec_body_" + n, ["C01", "C07"], "core", *DEC, tier=t,
       obligation="D1/T2: body phase: message iff len bytes buffered; decode view is exactly the payload bytes",
-      functions=DEC_FUNCS + ["tonic::codec::buffer::DecodeBuf"], bounds="all %s-byte buffers, len <= 8" % n)
+      functions=DEC_FUNCS + ["tonic::codec::buffer::DecodeBuf"], bounds="all %s-byte buffers, len <= %s" % (n, "8" if int(n) <= 8 else "16"))
 for n, t in (("0", "quick"), ("1", "quick"), ("6", "quick")):
     H("pf_eof_" + n, ["C07"], "core", *DEC, tier=t,
       obligation="T1a: body ended: leftover bytes => INTERNAL error, none => clean end, never Pending",
@@ -132,7 +132,7 @@ for nm, val in (("zstd_gzip", "'zstd, gzip'"), ("deflate_id", "'deflate,identity
 GT = ("tonic/src/transport/service/grpc_timeout.rs", "tonic/grpc_timeout.rs")
 for nm, b, t, cap in (("1", "all 1-byte header-legal values", "quick", 600), ("2", "all 2-byte header-legal values", "quick", 900),
                       ("3", "all 3-byte header-legal values", "quick", 1200), ("tail_9", "'999999' + any 3 bytes (9 bytes)", "quick", 1200),
-                      ("tail_10", "'9999999' + any 3 bytes (10 bytes)", "thorough", 2400), ("absent", "header absent", "quick", 300)):
+                      ("tail_10", "'9999999' + any 3 bytes (10 bytes)", "quick", 900), ("4", "all 4-byte header-legal values", "quick", 900), ("5", "all 5-byte header-legal values", "thorough", 3600), ("6", "all 6-byte header-legal values", "thorough", 3600), ("absent", "header absent", "quick", 300)):
     H("gt_parse_" + nm, ["C09"], "transport", *GT, tier=t, cap_s=cap, stubs=[HTTPH],
       obligation="G2: try_parse_grpc_timeout on a real 1-entry map == reference grammar (1..8 digits + unit in HMSmun => exact Duration; "
                  "anything else ignored), no panic",
@@ -146,7 +146,7 @@ H("gt_select_min", ["C09"], "transport", *GT, cap_s=1500, mem_gb=28, tier="quick
   outside=["the race between the inner future and the Sleep in ResponseFuture::poll (needs a tokio timer)"])
 
 RC = ("tonic/src/transport/channel/service/reconnect.rs", "tonic/reconnect.rs")
-for k, t, cap in ((2, "quick", 600), (3, "quick", 900), (4, "thorough", 2400), (5, "thorough", 3600)):
+for k, t, cap in ((2, "quick", 600), (3, "quick", 900), (4, "quick", 900), (5, "quick", 1200), (6, "quick", 1200), (8, "quick", 1200), (12, "thorough", 3600)):
     H("rc_step_k%d" % k, ["C14"], "transport", *RC, tier=t, cap_s=cap, unwindset=UW_MAPS + [("Reconnect<", 2 * k + 4)],
       may_be_uncovered=["recovery script"] if k < 3 else [],
       obligation="Reconnect from every state (Idle/Connecting/Connected x saved error x lazy/eager x has_been_connected), one poll_ready "
@@ -186,7 +186,7 @@ WEB = ("tonic-web/src/call.rs", "web/call.rs")
 H("web_find_trailers_12", ["C17"], "web_vb", *WEB, cap_s=900,
   obligation="U1: find_trailers == independent frame walker (Trailer(off) / Done(off) / IncompleteBuf / error on flag > 1)",
   functions=["tonic_web::call::find_trailers"], bounds="all buffers of length 0..=12 (symbolic length)")
-H("web_find_trailers_17", ["C17"], "web_vb", *WEB, tier="thorough", cap_s=3600,
+H("web_find_trailers_17", ["C17"], "web_vb", *WEB, tier="quick", cap_s=900,
   obligation="U1: find_trailers == independent frame walker", functions=["tonic_web::call::find_trailers"],
   bounds="all buffers of length 0..=17 (symbolic length)")
 H("web_trailers_frame_repeated", ["C16"], "web_vb", *WEB, cap_s=3600, tier="thorough", optional=True, stubs=[HTTPH],
@@ -199,7 +199,9 @@ H("web_decode_trailers_colon_repeat", ["C17"], "web_vb", *WEB, cap_s=3600, mem_g
   functions=["tonic_web::call::decode_trailers_frame"],
   bounds="frame with two lines for the same name; values of 3 and 1 symbolic visible-ASCII bytes (':' and inner ' ' included)")
 for n, k, t, cap in ((0, 1, "thorough", 3600), (3, 1, "thorough", 3600), (6, 1, "thorough", 3600), (4, 2, "thorough", 3600), (7, 2, "thorough", 3600)):
-    H("web_client_step_n%d_k%d" % (n, k), ["C17"], "web_vb", *WEB, tier=t, cap_s=cap, mem_gb=24, optional=True, stubs=[HTTPH],
+    H("web_client_step_n%d_k%d" % (n, k), ["C17"], "web_vb", *WEB, tier=t, cap_s=cap, mem_gb=24, optional=True,
+      stubs=[HTTPH, "decode_trailers_frame replaced by a stub that asserts it receives exactly one complete trailers frame and returns an "
+             "empty map (the real parser is a separate obligation)"],
       unwindset=UW_MAPS + [("tonic_web::GrpcWebCall<", 2 * k + 4), ("call::GrpcWebCall<", 2 * k + 4)],
       obligation="U3: one poll_frame of the client-side GrpcWebCall from %d arbitrary buffered bytes against every inner-body script of %d "
                  "events: returns within the loop bound; data frames are whole message frames of the received bytes; clean end only if "
@@ -241,7 +243,7 @@ for nm, b in (("ic_no_headers", "empty header map"), ("ic_reserved_header", "one
       bounds="method: 6 standard methods (symbolic), version: 5 (symbolic), accept/reject symbolic, reject code 1..=16 symbolic, body: any u32; " + b,
       outside=["extensions, header maps with more than 2 entries, custom (non-standard) header names on this path"])
 
-for n, t, cap in ((0, "thorough", 3600), (5, "thorough", 3600), (6, "thorough", 3600)):
+for n, t, cap in ((0, "thorough", 1500),):
     H("pn_glue_%d" % n, ["C07"], "core_vb", *DEC, tier=t, cap_s=cap, mem_gb=44, optional=True, unwindset=UW_MAPS + [("Streaming<", 5)],
       extra_cbmc=("--no-pointer-check", "--no-bounds-check"),
       assumes=["pn_glue_*: CBMC's generic pointer/bounds checks are switched off for this harness only (formula size); its assertions, "
@@ -345,6 +347,18 @@ H("st_connect_error_unavailable", ["C14", "C04"], "core", *ST, cap_s=900,
   stubs=["core::fmt::write stubbed (returns Ok without writing): message texts are outside the claim"],
   obligation="ConnectError in an error chain => UNAVAILABLE (the status a call gets while no connection can be made)",
   functions=["tonic::status::find_status_in_source_chain"], bounds="one ConnectError wrapping an arbitrary cause")
+
+H("dec_hdr_p11", ["C06", "C05", "C07", "C01"], "core", *DEC, tier="quick", cap_s=900,
+  obligation="L1/N4/T1a header step, longer payload", functions=DEC_FUNCS, bounds="all 16-byte buffers, all limits")
+H("web_find_trailers_24", ["C17"], "web_vb", *WEB, tier="quick", cap_s=900,
+  obligation="U1: find_trailers == independent frame walker", functions=["tonic_web::call::find_trailers"],
+  bounds="all buffers of length 0..=24 (symbolic length)")
+
+H("dec_hdr_p27", ["C06", "C05", "C07", "C01"], "core", *DEC, tier="thorough", cap_s=1800,
+  obligation="L1/N4/T1a header step, longer payload", functions=DEC_FUNCS, bounds="all 32-byte buffers, all limits")
+H("web_find_trailers_40", ["C17"], "web_vb", *WEB, tier="thorough", cap_s=3600,
+  obligation="U1: find_trailers == independent frame walker", functions=["tonic_web::call::find_trailers"],
+  bounds="all buffers of length 0..=40 (symbolic length)")
 
 
 def select(pid, tier, seed=0):
